@@ -2,19 +2,20 @@
 # mutant.sh <patch.diff> <ID> [tier]   -- apply a patch to a scratch copy of /repo, run one check against it, expect VIOLATION.
 # Options via env: RUN_TESTS=1 also runs the repository's own tests on the scratch copy first.
 set -u
+VHOME="$(cd "$(dirname "$0")/.." && pwd)"
 patch="$(realpath "$1")"; id="$2"; tier="${3:-quick}"
 scratch="/var/tmp/verif-scratch.$$"
 rm -rf "$scratch"; mkdir -p "$scratch"
 rsync -a --exclude .git /repo/ "$scratch/repo/"
-cleanup() { rm -rf "$scratch" /verif/.build/$(echo -n "$scratch/repo" | sha256sum | cut -c1-12); }
+cleanup() { rm -rf "$scratch" "$VHOME"/.build/$(echo -n "$scratch/repo" | sha256sum | cut -c1-12); }
 trap cleanup EXIT
 if ! (cd "$scratch/repo" && patch -p1 --quiet < "$patch"); then echo "MUTANT-PATCH-FAILED $patch"; exit 3; fi
 export GOFLAGS=-mod=mod GOPROXY=off GOSUMDB=off GOTOOLCHAIN=local
 if [ "${RUN_TESTS:-0}" = 1 ]; then
   if ! (cd "$scratch/repo" && go1.26 test -vet=off -count=1 ./... >/dev/null 2>&1); then echo "MUTANT-FAILS-OWN-TESTS $patch"; fi
 fi
-mkdir -p "$scratch/vroot"; cp /verif/known_findings.json "$scratch/vroot/"
-out=$(VERIF_REPO="$scratch/repo" VERIF_NO_EVIDENCE=1 VERIF_ROOT="$scratch/vroot" /verif/run.sh "$id" "$tier" 2>&1); rc=$?
+mkdir -p "$scratch/vroot"; cp "$VHOME"/known_findings.json "$scratch/vroot/"
+out=$(VERIF_REPO="$scratch/repo" VERIF_NO_EVIDENCE=1 VERIF_ROOT="$scratch/vroot" "$VHOME"/run.sh "$id" "$tier" 2>&1); rc=$?
 mkdir -p "$scratch/vroot"
 if [ $rc -eq 1 ] && echo "$out" | grep -q "^VIOLATION property=$id"; then
   echo "CAUGHT $id $(basename "$patch"): $(echo "$out" | grep -A1 '^VIOLATION' | grep signature | head -3 | tr '\n' ' ')"
